@@ -156,7 +156,7 @@ func replayRel(in string, shard, of int) {
 			// A real divergence between a node that served off-chain requests and one that did not.
 			rep.AddMismatch(hx.Mismatch{Behaviour: idx, Step: at - warm, Op: "block", What: why,
 				Want: map[string]interface{}{"model_predicts_divergence": modelDiv, "off_chain": offKinds(beh)},
-				Got: a.Off, History: beh})
+				Got:  a.Off, History: beh})
 		} else if modelDiv {
 			overapprox++ // the model (transcribing the unrepaired code) predicted a divergence that did not happen
 			if len(overList) < 5 {
@@ -534,6 +534,11 @@ func exportImport(out string, n int) {
 	for t := 0; t < n; t++ {
 		rng := hx.Rng(int64(t) + 777)
 		sc, _ := randomScript(rng, hx.Seed()*100+int64(t), false, false)
+		// every other pair of scenarios exports while claims of two different servicers are pending
+		pending := (t/4)%2 == 1
+		if pending {
+			sc = claimsScript(rng, hx.Seed()*100+int64(t))
+		}
 		// four scenario shapes: with / without the features that add governance parameters,
 		// with / without unstaking records at export time
 		sc.NoParamFeatures = t%2 == 0
@@ -554,7 +559,8 @@ func exportImport(out string, n int) {
 		}
 		sc.Export = int64(nblocks - rng.Intn(2))
 		src := child(sc)
-		ev := map[string]interface{}{"ev": "export", "id": t, "height": sc.Export, "noParamFeatures": sc.NoParamFeatures, "unstaking": unstaking}
+		ev := map[string]interface{}{"ev": "export", "id": t, "height": sc.Export, "noParamFeatures": sc.NoParamFeatures, "unstaking": unstaking, "pendingClaims": pending,
+			"expClaims": append([]chainsim.ClaimState{}, src.ExpClaims...)}
 		if src.Panic != "" || src.AtExport == nil {
 			ev["ok"] = false
 			ev["why"] = "export failed: " + src.Panic
@@ -600,6 +606,26 @@ func exportImport(out string, n int) {
 	rep.Distinct = rep.Behaviours
 	rep.Extra["events"] = tw.N
 	rep.Print()
+}
+
+// claimsScript: a chain on which two different servicers hold a pending claim.  a2 drops chain
+// 0001 before session 2 (heights 5..8) starts, so that a1 is the only node of the 0001 session
+// and a2 the only node of the 0002 session; both claim once the session is over.
+func claimsScript(rng *rand.Rand, seed int64) Script {
+	sc := Script{Seed: seed, Actions: warmActions()}
+	sc.Actions = append(sc.Actions, Action{A: "block", Txs: []map[string]interface{}{
+		{"kind": "node_stake", "node": "a2", "chains": []interface{}{"0002"}, "amount": float64(3000000), "output": "a2"}}})
+	for h := 4; h <= 8; h++ {
+		var txs []map[string]interface{}
+		if rng.Intn(2) == 0 {
+			txs = append(txs, map[string]interface{}{"kind": "send", "from": "a5", "to": "a8", "amount": float64(1 + rng.Intn(5000))})
+		}
+		sc.Actions = append(sc.Actions, Action{A: "block", Txs: txs})
+	}
+	sc.Actions = append(sc.Actions, Action{A: "block", Txs: []map[string]interface{}{
+		{"kind": "claim", "node": "a1", "app": "a4", "chain": "0001", "sessionHeight": float64(5), "total": float64(5 + rng.Intn(20))},
+		{"kind": "claim", "node": "a2", "app": "a4", "chain": "0002", "sessionHeight": float64(5), "total": float64(5 + rng.Intn(20))}}})
+	return sc
 }
 
 // exportView is the part of the projection C43 talks about.
